@@ -51,6 +51,15 @@ impl Value {
         }
     }
 
+    /// Converts an empty string to a null value (the two are stored the same
+    /// way in the file format); returns any other value unchanged.
+    pub(crate) fn empty_to_null(self) -> Value {
+        match self {
+            Value::Str(ref string) if string.is_empty() => Value::Null,
+            value => value,
+        }
+    }
+
     /// Creates a boolean value.
     pub(crate) fn from_bool(boolean: bool) -> Value {
         if boolean {
